@@ -78,6 +78,14 @@ class Malformed(Harness):
             for lazy, mode, chunked in ((True, "seek", False), (False, "seek", True)):
                 out.append(dict(fmt="bed12", rows=[[1, 1, 1, 1, 1, 1, 1, 1, 1, 1, 3, 3]] * 3, lists={f"{r}_{c}": L for r in range(3) for c in (10, 11)},
                                 bad=list(bad), lazy=lazy, mode=mode, chunked=chunked))
+        LT = {"widths": [1, 1], "trailing": True}          # the UCSC style: every list ends with the separator
+        for bad in ((1, 10, 0), (2, 10, 2), (2, 11, 0)):
+            for lazy, mode, chunked in ((True, "seek", False), (False, "seek", True)):
+                out.append(dict(fmt="bed12", rows=[[1, 1, 1, 1, 1, 1, 1, 1, 1, 1, 4, 4]] * 3, lists={f"{r}_{c}": LT for r in range(3) for c in (10, 11)},
+                                bad=list(bad), lazy=lazy, mode=mode, chunked=chunked))
+        # a lazily read chunk turned into a table as a whole (get_data_object) before any single field is read
+        for bad, col, pos in ((1, 1, 0), (2, 2, 0), (0, 1, 0)):
+            out.append(dict(fmt="bed3", rows=[[1, 1, 1], [1, 2, 2], [2, 1, 1]], bad=[bad, col, pos], lazy=True, mode="seek", chunked=True, whole_object=True))
         # signed values (ragged integer path) in the records before the offending one, in the same column
         rows = [[1, 2, 1], [1, 2, 2], [1, 3, 1]]
         for bad, col, pos in ((2, 1, 0), (2, 1, 1), (1, 1, 1), (2, 2, 0)):
@@ -167,6 +175,8 @@ class Malformed(Harness):
         chunks = [r.read()] if not skel["chunked"] else list(itertools.islice(r.read_chunks(x["k"]), n + 3))
         total = 0
         for ch in chunks:
+            if skel.get("whole_object"):
+                ch.get_data_object()      # all columns at once
             for f in fields_of(skel):
                 getattr(ch, f)            # field access parses lazily read data
             total += len(ch)
